@@ -2,7 +2,7 @@
 
 use crate::driver::Cfg;
 use crate::engine::Plan;
-use crate::histx::{enum_commit_histories, sort_by_bound};
+use crate::histx::{add_quiet, enum_commit_histories, sort_by_bound};
 use serde_json::{json, Value};
 
 fn w(k: u64, s: u64) -> Value {
@@ -163,6 +163,7 @@ pub fn plan_c09(thorough: bool) -> Plan {
             cases.push(case("empty", vec!["U4"], &cfg, "noproof", ops, 4, true));
         }
     }
+    add_quiet(&mut cases, if thorough { 1 } else { 2 });
     sort_by_bound(&mut cases);
     let mut p = Plan::new(
         cases,
@@ -596,6 +597,7 @@ pub fn plan_c05(thorough: bool) -> Plan {
         }
     }
     cases.extend(tombstone_family("proofs", thorough));
+    add_quiet(&mut cases, if thorough { 1 } else { 2 });
     sort_by_bound(&mut cases);
     let mut p = Plan::new(
         cases,
@@ -726,6 +728,7 @@ pub fn plan_c13(thorough: bool) -> Plan {
         }
     }
     cases.extend(crate::schedx::worker_schedule_cases(thorough));
+    add_quiet(&mut cases, 1);
     sort_by_bound(&mut cases);
     let mut p = Plan::new(
         cases,
